@@ -19,9 +19,8 @@ PURE_EXTERNALS = {"ast.literal_eval", "base64.b64decode", "base64.b64encode", "c
                   "functools.reduce", "operator.itemgetter", "operator.attrgetter", "struct.pack", "struct.unpack", "binascii.hexlify", "binascii.unhexlify", "json.dumps", "json.loads"}
 # calls that change state shared by every later call in the process
 STATE_CHANGING_EXTERNALS = {"sys.set*", "os.environ*", "os.putenv", "os.unsetenv", "os.chdir", "os.umask", "random.seed", "random.setstate", "locale.setlocale", "warnings.simplefilter",
-                            "warnings.filterwarnings", "warnings.resetwarnings", "gc.disable", "gc.enable", "gc.set*", "importlib.reload", "importlib.invalidate_caches", "decimal.setcontext",
-                            "decimal.getcontext", "threading.set*", "faulthandler.*", "signal.signal", "atexit.register", "functools.lru_cache", "functools.cache", "linecache.*", "dis.opmap*",
-                            "sys.path*", "sys.modules*", "builtins.*", "codecs.register*", "copyreg.*", "socket.setdefaulttimeout", "logging.*", "time.sleep", "resource.setrlimit"}
+                            "warnings.filterwarnings", "warnings.resetwarnings", "gc.disable", "gc.enable", "gc.set*", "importlib.reload", "decimal.setcontext", "threading.set*",
+                            "signal.signal", "sys.path*", "sys.modules*", "builtins.*", "codecs.register*", "copyreg.*", "socket.setdefaulttimeout", "resource.setrlimit"}
 
 class Prov:
     __slots__ = ("kinds", "contents", "fields")
@@ -79,7 +78,7 @@ class FrameCheck(ast.NodeVisitor):
         elif any(qualname == m or (m.endswith("*") and qualname.startswith(m[:-1])) for m in STATE_CHANGING_EXTERNALS):
             # a function that also reads the setting back may be saving and restoring it: not decidable here
             mod, _, attr = qualname.rpartition(".")
-            reads = {mod + "." + attr.replace("set", "get", 1), mod + ".getcwd", mod + ".getstate", mod + ".getlocale"} - {qualname}
+            reads = {mod + "." + attr.replace("set", "get", 1), mod + ".getcwd", mod + ".getstate", mod + ".getlocale", mod + ".catch_warnings", mod + ".localcontext", mod + ".isenabled"} - {qualname}
             ok, off = False, (["U"] if any(r in self.calls_in_function for r in reads) else ["G"])
         else: ok, off = False, ["U"]
         self.obligations.append(dict(fn=self.qual, line=node.lineno, what="external call %s() leaves interpreter-wide state unchanged" % qualname, target="M:" + qualname, ok=ok, offending=off))
